@@ -1,7 +1,7 @@
 ----------------------------- MODULE TRACE_Repl -----------------------------
 (* Validation of system traces recorded from a real primary and real replicas (C13 system clause, C14, C15).
    The harness logs, in the order of its single driver:
-     reset | w(op) wret | flush | join | rstop | rrestart(rcount) | cwr(refused) | s(st, x, rep) | quiesce | conv(pst) | noconv
+     reset | w(op) wret | flush | join | rstop | rrestart(rcount) | cwr(refused) | s(st, x, rep, cnt) | quiesce | conv(pst) | noconv
      fault(mode) | inv(c, op) ret(c, op) | ops(c, n) | hang(c, op) | topo(dropped) | hconv(ok) | end | error
    w is logged BEFORE the primary call (primary order = order of w events: one driver), s is one atomic sample of the
    replica's whole state (st), the number of keys outside the model (x) and the applied sequence number the replica
@@ -14,7 +14,8 @@
         the history defines;
    C15: every inv is followed by its ret (a hang has no action here), a replica that stopped reading is reported
         dropped, the healthy replica converges.
-   What the replica does between samples is not logged: TLC has to find the prefixes.
+   What the replica does between samples is not logged; the prefix a sample has to equal is identified by the replica engine's own
+   entry counter (cnt), read in the same quiet moment as the state.
    The KF_* constants enable the actions that describe the OPEN known findings; they are FALSE in the conformance
    configuration (TRACE_Repl.cfg) and TRUE only in the configuration that decides whether a rejected trace is an
    instance of a finding (TRACE_Repl_kf.cfg). *)
@@ -46,10 +47,10 @@ Ev(e) == l <= Len(Trace) /\ Trace[l].e = e /\ l' = l + 1
 SeqAt(n) == IF n = 0 THEN 0 ELSE ents[n].seq
 Norm(v) == IF v = "TOMB" THEN "NONE" ELSE v
 Was(b, k) == IF k \in DOMAIN b THEN b[k] ELSE "NONE"
-\* the state of a store that held b and then applied the first n entries
-Overlay(b, n) == [k \in Keys |->
-                    LET is == {i \in 1..n : ents[i].k = k} IN
-                    IF is = {} THEN Was(b, k) ELSE Norm(ents[CHOOSE i \in is : \A j \in is : j <= i].v)]
+\* what key k reads as in a store that held b and then applied the first n entries
+ValAt(b, n, k) == LET is == {i \in 1..n : ents[i].k = k} IN
+                  IF is = {} THEN Was(b, k) ELSE Norm(ents[CHOOSE i \in is : \A j \in is : j <= i].v)
+Overlay(b, n) == [k \in Keys |-> ValAt(b, n, k)]
 
 TInit == TLCSet(1, 0) /\ l = 1 /\ ents = <<>> /\ nseq = 1 /\ base = None /\ lo = 0 /\ rep = 0 /\ wr = 0 /\ busy = {} /\ stalled = 0 /\ extra = 0
 
@@ -70,10 +71,14 @@ TRestartFromOne == /\ KF_RestartFromOne /\ Ev("rrestart")
                    /\ base' = Overlay(base, lo) /\ lo' = 0 /\ rep' = 0 /\ extra' = Trace[l].rcount
                    /\ UNCHANGED <<ents, nseq, wr, stalled, busy>>
 TCwr == Ev("cwr") /\ Trace[l].refused /\ UNCHANGED <<ents, nseq, base, lo, rep, wr, stalled, extra, busy>>
+\* cnt is the replica engine's own sequence counter during the scan (it did not move): the number of entries the engine has been
+\* handed since it was created.  That number identifies the prefix: the sample must be the state after exactly that many
+\* entries of the primary's history (minus those of earlier lives that were handed over again, see TRestartFromOne)
 TSample == /\ Ev("s") /\ Trace[l].x = 0
            /\ Trace[l].rep >= rep /\ rep' = Trace[l].rep
-           /\ \E n \in lo..Len(ents) :
-                /\ \A k \in Keys : Trace[l].st[k] = Overlay(base, n)[k]
+           /\ LET n == Trace[l].cnt - extra IN
+                /\ n >= lo /\ n <= Len(ents)
+                /\ \A k \in Keys : Trace[l].st[k] = ValAt(base, n, k)
                 /\ SeqAt(n) >= Trace[l].rep
                 /\ lo' = n
            /\ UNCHANGED <<ents, nseq, base, wr, stalled, extra, busy>>
@@ -82,7 +87,7 @@ TQuiesce == Ev("quiesce") /\ wr = 0 /\ UNCHANGED <<ents, nseq, base, lo, rep, wr
 \* each (a skipped entry that a later write covers, or an entry applied twice, is invisible in the state but not here)
 TConv == /\ Ev("conv") /\ lo = Len(ents)
          /\ Trace[l].rcount = Len(ents) + extra
-         /\ \A k \in Keys : Trace[l].pst[k] = Overlay(None, Len(ents))[k]
+         /\ \A k \in Keys : Trace[l].pst[k] = ValAt(None, Len(ents), k)
          /\ UNCHANGED <<ents, nseq, base, lo, rep, wr, stalled, extra, busy>>
 
 (* C15 *)
